@@ -1,7 +1,7 @@
 """C20 — short uuid strings are a bijective encoding of UUIDs."""
 import ast
 
-from sa.core import (AnalysisError, call_name, const, dotted, enclosing_func, is_name, literal, norm, parent, walk_local,
+from sa.core import (AnalysisError, FUNC, call_name, const, dotted, enclosing_func, is_name, literal, norm, parent, walk_local,
                      names_in, assignments, params, enclosing_stmt, ancestors)
 from sa.guards import facts
 
@@ -133,14 +133,14 @@ def run(cx):
     # private helpers other than the decoder itself are expanded in place (analysis copy), so a constructor wrapped into a
     # helper is judged like the inline form
     from sa.inline import inlined
-    from_short, _used = inlined(mod, from_short, exclude=(dec.name, enc.name))
+    from_short, _used = inlined(mod, from_short, exclude=(dec.name, enc.name), tests=True)
     if _used:
         cx.note(f"R20d/R20e: uuid_from_short_str analysed with {_used} inlined")
     arg = params(from_short)[0]
     dcalls = [n for n in walk_local(from_short) if isinstance(n, ast.Call) and call_name(n) == dec.name]
     cx.need(dcalls, "R20d", from_short, "decoder is not called")
     for c in dcalls:
-        fs = facts(c)
+        fs = facts(c, expand_tests=True)
         is_str = any(isinstance(e, ast.Call) and call_name(e) == "isinstance" and pol and is_name(e.args[0], arg) and is_name(e.args[1], "str") for e, pol in fs)
         len_ok = any(isinstance(e, ast.Compare) and len(e.ops) == 1 and (
             (isinstance(e.ops[0], ast.NotEq) and not pol) or (isinstance(e.ops[0], ast.Eq) and pol))
@@ -154,9 +154,11 @@ def run(cx):
     extra_raisers = []
     for u in ucalls:
         kw = {k.arg: k.value for k in u.keywords}
-        ok = "int" in kw and isinstance(kw["int"], ast.Name) and not u.args
+        ok = "int" in kw and isinstance(kw["int"], (ast.Name, ast.Call)) and not u.args
         src_ok = False
-        if ok:
+        if ok and isinstance(kw["int"], ast.Call):
+            src_ok = call_name(kw["int"]) == dec.name and kw["int"] in dcalls
+        elif ok:
             defs = [v for _, v in assignments(from_short, kw["int"].id)]
             src_ok = len(defs) == 1 and isinstance(defs[0], ast.Call) and call_name(defs[0]) == dec.name
         if ok and src_ok:
@@ -203,6 +205,31 @@ def run(cx):
         implicit.add("KeyError")       # dict subscript in the decoder
     for nm_, _u in extra_raisers:
         implicit.add(nm_)
+    # a .get() look-up never raises by itself: what happens to a character outside the alphabet?
+    for g_ in dec_gets:
+        default = g_.args[1] if len(g_.args) > 1 else next((k.value for k in g_.keywords if k.arg == "default"), None)
+        st_ = enclosing_stmt(g_)
+        dname = st_.targets[0].id if isinstance(st_, ast.Assign) and len(st_.targets) == 1 and isinstance(st_.targets[0], ast.Name) and st_.value is g_ else None
+        guard = None
+        if dname is not None:
+            for i_ in [x for x in walk_local(dec) if isinstance(x, ast.If)]:
+                if dname in names_in(i_.test) and _always_raises(i_.body) and getattr(i_, "lineno", 0) > getattr(st_, "lineno", 0):
+                    guard = i_
+        if guard is not None:
+            rs = [r for r in ast.walk(guard) if isinstance(r, ast.Raise)]
+            for r in rs:
+                implicit.add(_exc_type(cx, r, mod))
+            tst = norm(guard.test).replace(" ", "")
+            ok = (default is None or (isinstance(default, ast.Constant) and default.value is None)) and tst in (f"{dname}isNone",) or \
+                 (isinstance(default, ast.UnaryOp) and isinstance(default.op, ast.USub) and tst in (f"{dname}<0", f"{dname}==-1", f"{dname}=={norm(default)}"))
+            cx.need(ok, "R20e", guard, f"the test `{norm(guard.test)}` on the result of `{norm(g_)}` is not recognised")
+            cx.ob("R20e", g_, True, "a character outside the alphabet is detected by testing the look-up result", stmt=norm(g_) + " [foreign character]")
+        elif default is None or (isinstance(default, ast.Constant) and default.value is None):
+            implicit.add("TypeError")
+            cx.ob("R20e", g_, True, "a character outside the alphabet gives None, arithmetic on it raises TypeError (handler types checked below)", stmt=norm(g_) + " [foreign character]")
+        else:
+            cx.ob("R20e", g_, False, f"a character outside the alphabet is silently decoded as the digit `{norm(default)}`: strings with foreign characters are accepted",
+                  stmt=norm(g_) + " [foreign character]")
     for site in dcalls + ucalls:
         t = next((t for t in tries if any(site in list(ast.walk(s)) for s in t.body)), None)
         cx.ob("R20e", site, t is not None, "call is inside a try block" if t else "call that may raise is outside any handler")
@@ -216,14 +243,14 @@ def run(cx):
                     nm = dotted(x)
                     caught |= {"Exception": {"ValueError", "KeyError"}, "LookupError": {"KeyError"}, "BaseException": {"ValueError", "KeyError"}}.get(nm, {nm})
             reraises = [n for n in ast.walk(h) if isinstance(n, ast.Raise)]
-            okh = bool(reraises) and all(r.exc is not None and call_name(r.exc) == "ValueError" for r in reraises) and _always_raises(h.body)
+            okh = bool(reraises) and all(r.exc is not None and _exc_type(cx, r, mod) == "ValueError" for r in reraises) and _always_raises(h.body)
             cx.ob("R20e", h, okh, "handler re-raises ValueError on every path" if okh else "handler swallows the error or raises another type")
         need = {"ValueError"} | implicit
         miss = need - caught
         cx.ob("R20e", t, not miss, f"handler catches {sorted(need)}" if not miss else
               f"{sorted(miss)} can escape: the decoder subscripts the index dict with a character that may be outside the alphabet")
     for r in [n for n in walk_local(from_short) if isinstance(n, ast.Raise)]:
-        ok = r.exc is not None and call_name(r.exc) == "ValueError"
+        ok = r.exc is not None and _exc_type(cx, r, mod) == "ValueError"
         cx.ob("R20e", r, ok, "explicit raise is ValueError" if ok else f"explicit raise of {norm(r.exc) if r.exc else 'bare raise'}")
     rets = [n for n in walk_local(from_short) if isinstance(n, ast.Return)]
     for r in rets:
@@ -253,6 +280,34 @@ def run(cx):
     in_try = [c for c in fb if any(c in list(ast.walk(s)) for s in t.body)]
     cx.ob("R20f", t, not in_try, "fallback is outside the try body" if not in_try else "short form is attempted inside the try body", stmt="try: [order]")
     cx.count("functions_analysed", 5)
+
+
+def _exc_type(cx, r, mod):
+    """class name of the exception a `raise` statement raises; a module-level factory function whose every return is a
+    constructor call of one class counts as that class; anything else is undecided"""
+    e = r.exc
+    if isinstance(e, ast.Call) and isinstance(e.func, ast.Name):
+        f = next((st for st in mod.tree.body if isinstance(st, FUNC) and st.name == e.func.id), None)
+        if f is None:
+            return e.func.id
+        rets = [x for x in walk_local(f) if isinstance(x, ast.Return)]
+        kinds = {call_name(x.value) if isinstance(x.value, ast.Call) and isinstance(x.value.func, ast.Name) else None for x in rets}
+        raises_inside = [x for x in walk_local(f) if isinstance(x, ast.Raise)]
+        if len(kinds) == 1 and None not in kinds and not raises_inside and _always_returns_value(f.body):
+            return kinds.pop()
+        raise AnalysisError("R20e", f"{REL}::{f.name}", "exception factory: the class of the returned exception is not recognised")
+    if isinstance(e, ast.Name):
+        return e.id        # `raise ValueError`
+    raise AnalysisError("R20e", f"{REL}", f"raised expression `{norm(e)}` is not recognised")
+
+
+def _always_returns_value(stmts):
+    for st in stmts:
+        if isinstance(st, ast.Return):
+            return st.value is not None
+        if isinstance(st, ast.If) and st.orelse and _always_returns_value(st.body) and _always_returns_value(st.orelse):
+            return True
+    return False
 
 
 def _bounds_with_consts(fs, name, mod):
@@ -369,72 +424,158 @@ def _encoder(cx, enc, mod, alpha_name, len_name):
         qr_ok = di < qi and _resolve_base(db, enc, mod, alpha_name) and _resolve_base(qb, enc, mod, alpha_name)
     cx.ob("R20c", base_node, qr_ok, "digit = n mod B, n = n div B with B = size of the alphabet" if qr_ok else
           "quotient/remainder use a base different from the alphabet size, or the remainder is taken after the division")
-    # emission
-    outs = [st for st in body if (isinstance(st, ast.AugAssign) and isinstance(st.op, ast.Add)) or
-            (isinstance(st, ast.Assign) and isinstance(st.value, ast.BinOp) and isinstance(st.value.op, ast.Add))]
-    outs = [st for st in outs if any(isinstance(x, ast.Subscript) and is_name(x.value, alpha_name) for x in ast.walk(st.value))]
-    cx.need(len(outs) == 1, "R20c", enc, "encoder: exactly one statement emitting a digit expected")
-    st = outs[0]
+    # emission and padding: the digit string is followed as an abstract sequence value through the function.
+    #   parts: ("D", order)  all digits of the number, least- or most-significant first
+    #          ("P", zero, count_ok, text)  a run of one padding symbol
+    # containers (str / list of characters) are not distinguished: "".join(list) is the identity on sequences.
+    from sa.guards import xnorm_at
+
     def is_digit_sym(e):
         return isinstance(e, ast.Subscript) and is_name(e.value, alpha_name) and is_name(e.slice, digit)
-    if isinstance(st, ast.AugAssign):
-        out, order, sym = st.target.id, "LSD-first", st.value
-    else:
-        out = st.targets[0].id
-        if is_name(st.value.left, out):
-            order, sym = "LSD-first", st.value.right
-        elif is_name(st.value.right, out):
-            order, sym = "MSD-first", st.value.left
-        else:
-            raise AnalysisError("R20c", f"{REL}::{enc.name}", "digit emission form not recognised")
+
+    def is_zero_sym(e):
+        return isinstance(e, ast.Subscript) and is_name(e.value, alpha_name) and const(e.slice, int) and e.slice.value == 0
+
+    def alpha_sym(e):
+        return isinstance(e, ast.Subscript) and is_name(e.value, alpha_name)
+
+    # --- inside the loop: which variable collects the digits, at which end
+    emits = []
+    for st in body:
+        tgt = sym = where_ = None
+        if isinstance(st, ast.AugAssign) and isinstance(st.op, ast.Add) and isinstance(st.target, ast.Name):
+            tgt, where_ = st.target.id, "end"
+            sym = st.value.elts[0] if isinstance(st.value, ast.List) and len(st.value.elts) == 1 else st.value
+        elif isinstance(st, ast.Assign) and len(st.targets) == 1 and isinstance(st.targets[0], ast.Name) and isinstance(st.value, ast.BinOp) and isinstance(st.value.op, ast.Add):
+            t_ = st.targets[0].id
+            l_, r_ = st.value.left, st.value.right
+            unl = lambda x: x.elts[0] if isinstance(x, ast.List) and len(x.elts) == 1 else x
+            if is_name(l_, t_):
+                tgt, where_, sym = t_, "end", unl(r_)
+            elif is_name(r_, t_):
+                tgt, where_, sym = t_, "start", unl(l_)
+        elif isinstance(st, ast.Expr) and isinstance(st.value, ast.Call) and isinstance(st.value.func, ast.Attribute) and isinstance(st.value.func.value, ast.Name):
+            c_ = st.value
+            if c_.func.attr == "append" and len(c_.args) == 1:
+                tgt, where_, sym = c_.func.value.id, "end", c_.args[0]
+            elif c_.func.attr == "insert" and len(c_.args) == 2 and const(c_.args[0], int) and c_.args[0].value == 0:
+                tgt, where_, sym = c_.func.value.id, "start", c_.args[1]
+            elif c_.func.attr == "appendleft" and len(c_.args) == 1:
+                tgt, where_, sym = c_.func.value.id, "start", c_.args[0]
+        if tgt is not None and sym is not None and any(alpha_sym(x) for x in ast.walk(sym)):
+            emits.append((st, tgt, where_, sym))
+    cx.need(len(emits) == 1, "R20c", enc, "encoder: exactly one statement emitting a digit expected")
+    st, out, where_, sym = emits[0]
+    order = "LSD-first" if where_ == "end" else "MSD-first"
     cx.ob("R20c", st, is_digit_sym(sym), f"emits ALPHABET[remainder] ({order})" if is_digit_sym(sym) else f"emitted symbol `{norm(sym)}` is not the alphabet character of the remainder")
-    # emission must come after the remainder is computed
-    # padding: after the loop
+    init = [v for s0, v in assignments(enc, out) if s0 in enc.body and enc.body.index(s0) < enc.body.index(loop)]
+    ok = len(init) == 1 and ((isinstance(init[0], ast.Constant) and init[0].value == "") or (isinstance(init[0], ast.List) and not init[0].elts) or
+                             (isinstance(init[0], ast.Call) and call_name(init[0]) in ("list", "str", "deque") and not init[0].args))
+    cx.ob("R20c", loop, ok, "the digit collector starts empty" if ok else "the digit collector does not start empty", stmt="collector initialisation")
+
+    class Unknown(Exception):
+        pass
+    env = {out: [("D", order)]}
+
+    def digits_len(e, at):
+        """is `e` (evaluated at `at`) the number of digits emitted?  len(<sequence consisting of the digits only>)"""
+        x = e
+        if isinstance(x, ast.Call) and call_name(x) == "len" and len(x.args) == 1:
+            v = ev(x.args[0], at)
+            return v == [("D", "LSD-first")] or v == [("D", "MSD-first")]
+        return False
+
+    def count_ok(cnt, at):
+        from sa.guards import expand_at
+        c = expand_at(cnt, at)
+        return isinstance(c, ast.BinOp) and isinstance(c.op, ast.Sub) and is_name(c.left, len_name) and digits_len(c.right, at)
+
+    def ev(e, at):
+        if isinstance(e, ast.Name):
+            if e.id in env:
+                return env[e.id]
+            from sa.guards import reaching_def
+            r = reaching_def(e.id, at, calls=True)
+            if r is not None:
+                return ev(r[0], r[1])
+            raise Unknown(f"value of {e.id}")
+        if isinstance(e, ast.Constant) and e.value == "":
+            return []
+        if isinstance(e, ast.Call) and call_name(e) == "join" and isinstance(e.func, ast.Attribute) and const(e.func.value, str) and e.func.value.value == "" and len(e.args) == 1:
+            return ev(e.args[0], at)
+        if isinstance(e, ast.Call) and isinstance(e.func, ast.Name) and e.func.id in ("list", "str", "tuple") and len(e.args) == 1:
+            return ev(e.args[0], at)
+        if isinstance(e, ast.Call) and isinstance(e.func, ast.Name) and e.func.id == "reversed" and len(e.args) == 1:
+            return rev(ev(e.args[0], at))
+        if isinstance(e, ast.Subscript) and isinstance(e.slice, ast.Slice) and e.slice.lower is None and e.slice.upper is None and e.slice.step is not None \
+                and norm(e.slice.step) == "-1":
+            return rev(ev(e.value, at))
+        if isinstance(e, ast.BinOp) and isinstance(e.op, ast.Add):
+            return ev(e.left, at) + ev(e.right, at)
+        if isinstance(e, ast.BinOp) and isinstance(e.op, ast.Mult):
+            symb, cnt = (e.left, e.right) if alpha_sym(e.left) or isinstance(e.left, ast.List) else (e.right, e.left)
+            if isinstance(symb, ast.List) and len(symb.elts) == 1:
+                symb = symb.elts[0]
+            if alpha_sym(symb):
+                return [("P", is_zero_sym(symb), count_ok(cnt, at), norm(e))]
+            raise Unknown(norm(e))
+        if isinstance(e, ast.Call) and isinstance(e.func, ast.Attribute) and e.func.attr in ("ljust", "rjust") and len(e.args) == 2:
+            base_v = ev(e.func.value, at)
+            padp = ("P", is_zero_sym(e.args[1]), is_name(e.args[0], len_name) and base_v in ([("D", "LSD-first")], [("D", "MSD-first")]), norm(e))
+            return base_v + [padp] if e.func.attr == "ljust" else [padp] + base_v
+        raise Unknown(norm(e)[:60])
+
+    def rev(v):
+        return [(("D", "MSD-first" if p_[1] == "LSD-first" else "LSD-first") if p_[0] == "D" else p_) for p_ in reversed(v)]
     after = enc.body[enc.body.index(loop) + 1:]
-    pad = None
-    for s2 in after:
-        for n in ast.walk(s2):
-            if isinstance(n, ast.BinOp) and isinstance(n.op, ast.Mult) and any(isinstance(x, ast.Subscript) and is_name(x.value, alpha_name) for x in (n.left, n.right)):
-                pad = (s2, n)
-            if isinstance(n, ast.Call) and isinstance(n.func, ast.Attribute) and n.func.attr in ("ljust", "rjust") and is_name(n.func.value, out):
-                pad = (s2, n)
-    if pad is None:
+    result = None
+    ret_node = None
+    try:
+        for s2 in after:
+            if isinstance(s2, ast.Assign) and len(s2.targets) == 1 and isinstance(s2.targets[0], ast.Name):
+                if any(isinstance(x, ast.Name) and (x.id in env) for x in ast.walk(s2.value)) or s2.targets[0].id in env:
+                    try:
+                        env[s2.targets[0].id] = ev(s2.value, s2)
+                    except Unknown:
+                        if s2.targets[0].id in env:
+                            raise
+                        # a helper value (e.g. the padding count) - looked at where it is used
+            elif isinstance(s2, ast.AugAssign) and isinstance(s2.op, ast.Add) and isinstance(s2.target, ast.Name) and s2.target.id in env:
+                env[s2.target.id] = env[s2.target.id] + ev(s2.value, s2)
+            elif isinstance(s2, ast.Expr) and isinstance(s2.value, ast.Call) and isinstance(s2.value.func, ast.Attribute) and is_name(s2.value.func.value) \
+                    and s2.value.func.value.id in env and s2.value.func.attr in ("extend", "reverse"):
+                nm_ = s2.value.func.value.id
+                env[nm_] = rev(env[nm_]) if s2.value.func.attr == "reverse" else env[nm_] + ev(s2.value.args[0], s2)
+            elif isinstance(s2, ast.Return):
+                cx.need(s2.value is not None, "R20c", s2, "encoder returns nothing")
+                result, ret_node = ev(s2.value, s2), s2
+                break
+            elif isinstance(s2, (ast.Expr, ast.Pass)) and not any(isinstance(x, ast.Name) and x.id in env for x in ast.walk(s2)):
+                continue
+            else:
+                raise Unknown(norm(s2)[:60])
+    except Unknown as e:
+        raise AnalysisError("R20c", f"{REL}::{enc.name}", f"encoder: how the digit string is finished is not recognised ({e})")
+    cx.need(result is not None, "R20c", enc, "encoder: no return after the digit loop")
+    ds = [p_ for p_ in result if p_[0] == "D"]
+    ps_ = [p_ for p_ in result if p_[0] == "P"]
+    ok = len(ds) == 1
+    cx.ob("R20c", ret_node, ok, "returns the digit string" if ok else "returned value does not contain the digits exactly once", stmt="returned digits")
+    if not ok:
+        return None
+    order = ds[0][1]
+    if not ps_:
         cx.ob("R20c", enc, False, "no padding with the zero digit: encodings of small numbers are shorter than the fixed length", stmt="padding")
         return order
-    s2, n = pad
-    if isinstance(n, ast.BinOp):
-        sym = n.left if isinstance(n.left, ast.Subscript) else n.right
-        cnt = n.right if sym is n.left else n.left
-        zero = const(sym.slice, int) and sym.slice.value == 0
-        # count = LEN - len(out)
-        cnt_e = cnt
-        if isinstance(cnt, ast.Name):
-            d = [v for _, v in assignments(enc, cnt.id)]
-            cnt_e = d[0] if len(d) == 1 and d[0] is not None else cnt
-        cnt_ok = isinstance(cnt_e, ast.BinOp) and isinstance(cnt_e.op, ast.Sub) and is_name(cnt_e.left, len_name) and norm(cnt_e.right) == f"len({out})"
-        # side
-        if isinstance(s2, ast.AugAssign) and is_name(s2.target, out):
-            side = "end"
-        elif isinstance(s2, ast.Assign) and isinstance(s2.value, ast.BinOp) and isinstance(s2.value.op, ast.Add):
-            side = "end" if is_name(s2.value.left, out) else "start"
-        elif isinstance(s2, ast.Return) and isinstance(s2.value, ast.BinOp) and isinstance(s2.value.op, ast.Add):
-            side = "end" if is_name(s2.value.left, out) else "start"
-        else:
-            raise AnalysisError("R20c", f"{REL}::{enc.name}", "padding statement form not recognised")
-    else:
-        zero = len(n.args) == 2 and isinstance(n.args[1], ast.Subscript) and is_name(n.args[1].value, alpha_name) and const(n.args[1].slice, int) and n.args[1].slice.value == 0
-        cnt_ok = len(n.args) >= 1 and is_name(n.args[0], len_name)
-        side = "end" if n.func.attr == "ljust" else "start"
-    cx.ob("R20c", s2, zero, "padding symbol is the zero digit ALPHABET[0]" if zero else "padding symbol is not the zero digit", stmt=norm(s2) + " [symbol]")
-    cx.ob("R20c", s2, cnt_ok, f"padding length is {len_name} - len(out)" if cnt_ok else "padding length is not LEN - len(out): result is not exactly LEN characters", stmt=norm(s2) + " [count]")
+    cx.need(len(ps_) == 1, "R20c", ret_node, "more than one padding run")
+    pz = ps_[0]
+    cx.ob("R20c", ret_node, pz[1], "padding symbol is the zero digit ALPHABET[0]" if pz[1] else "padding symbol is not the zero digit", stmt="padding [symbol]")
+    cx.ob("R20c", ret_node, pz[2], f"padding length is {len_name} - number of digits" if pz[2] else f"padding `{pz[3]}`: its length is not {len_name} - len(digits): result is not exactly {len_name} characters",
+          stmt="padding [count]")
+    side = "end" if result.index(pz) > result.index(ds[0]) else "start"
     want = "end" if order == "LSD-first" else "start"
-    cx.ob("R20c", s2, side == want, f"padding goes to the most-significant end ({side})" if side == want else
-          f"padding is added at the {side} but the most-significant end is the {want}: value changes", stmt=norm(s2) + " [side]")
-    rets = [r for r in walk_local(enc) if isinstance(r, ast.Return)]
-    ok = all(r.value is not None and out in names_in(r.value) and not isinstance(r.value, ast.Subscript) and
-             not (isinstance(r.value, ast.Call) and call_name(r.value) in ("reversed", "lower", "upper", "strip")) for r in rets) and bool(rets)
-    plain = all(is_name(r.value, out) or r is s2 for r in rets)
-    cx.ob("R20c", rets[-1] if rets else enc, ok and plain, "returns the padded digit string unchanged" if ok and plain else "returned value is a transformed digit string")
+    cx.ob("R20c", ret_node, side == want, f"padding goes to the most-significant end ({side})" if side == want else
+          f"padding is added at the {side} but the most-significant end is the {want}: value changes", stmt="padding [side]")
     return order
 
 
@@ -458,8 +599,17 @@ def _decoder(cx, dec, mod, alpha_name, index_name):
         rev = True
     cx.need(rev is not None, "R20c", dec, f"decoder: iteration `{norm(loop.iter)}` not recognised (whole string, forward or reversed)")
     body = [st for st in loop.body if not isinstance(st, (ast.Expr, ast.Pass))]
-    cx.need(len(body) == 1 and isinstance(body[0], (ast.Assign, ast.AugAssign)), "R20c", dec, "decoder: single accumulating statement expected")
-    st = body[0]
+    # temporaries (`digit = IDX[c]`) before the accumulating statement are read through their reaching definitions
+    pre_ok = all(isinstance(b_, ast.Assign) and len(b_.targets) == 1 and isinstance(b_.targets[0], ast.Name) for b_ in body[:-1])
+    cx.need(body and pre_ok and isinstance(body[-1], (ast.Assign, ast.AugAssign)), "R20c", dec, "decoder: accumulating statement (after plain temporaries) expected")
+    st0 = body[-1]
+    from sa.guards import expand_at as _xa
+    import copy as _copy
+    st = _copy.copy(st0)
+    st.value = _xa(st0.value, st0, calls=True)
+    for a_ in ("_parent", "_mod", "_qual"):
+        if hasattr(st0, a_):
+            setattr(st, a_, getattr(st0, a_))
     if enum:
         # acc += IDX[c] * B ** i
         cx.need(isinstance(loop.target, ast.Tuple) and len(loop.target.elts) == 2, "R20c", dec, "enumerate target")
@@ -489,7 +639,7 @@ def _decoder(cx, dec, mod, alpha_name, index_name):
                 (is_name(mul.right, acc) and _resolve_base(mul.left, dec, mod, alpha_name)))
             ok = is_dig and is_mul
             # accumulator starts at 0
-            inits = [v for s0, v in assignments(dec, acc) if s0 is not st]
+            inits = [v for s0, v in assignments(dec, acc) if s0 is not st0]
             ok0 = len(inits) == 1 and const(inits[0], int) and inits[0].value == 0
             cx.ob("R20c", st, ok0, "accumulator starts at 0" if ok0 else "accumulator does not start at 0", stmt=norm(st) + " [init]")
             rets = [r for r in walk_local(dec) if isinstance(r, ast.Return)]
